@@ -84,6 +84,12 @@ def package_table(draw):
         body = draw(gen.g_dom(max_atoms=3, mode="valid", pools=POOLS, neutral_root=False))
         asts[key] = body
         table[key] = ref.canonical(body)
+        if draw(st.sampled_from(range(4))) == 0:
+            # a time condition inside the package: the expression that uses the package does not spell "UB" out, yet
+            # the resolved tree must not contain a time condition any more ([UB1] -> [932], [UB2] -> [934])
+            time_key, fc_key = draw(st.sampled_from([("UB1", "932"), ("UB2", "934")]))
+            asts[key] = ["and", [body, ["fc", fc_key]]]
+            table[key] = f"({ref.canonical(body)}) U [{time_key}]"
     return table, asts
 
 
@@ -154,7 +160,7 @@ def g_cer(draw, weights=None):
     weights = weights or draw(st.sampled_from(["FUK", "FFFU", "FFUK", "F", "FFFFUK"]))
     return {
         "rc": {k: draw(st.sampled_from(weights)) for k in RC},
-        "fc": {k: draw(st.booleans()) for k in FCS},
+        "fc": {**{k: draw(st.booleans()) for k in FCS}, "932": draw(st.booleans()), "934": draw(st.booleans())},
         "hints": draw(gen.hint_texts(HINTS)),
     }
 
